@@ -20,7 +20,7 @@ Lemma handle_plan_continue c r x : c_continue c = true ->
   exists log tc, handle_plan T_id FS_none GD_some c r x =
     (log, match file_of c x with None => PNotFound | Some p => PServe p tc end).
 Proof.
-  intros Hc. unfold handle_plan, lookup, file_of, FS_none, GD_some. rewrite Hc. cbn [negb].
+  intros Hc. unfold handle_plan, lookup, file_of, T_id, FS_none, GD_some. rewrite Hc. cbn [negb].
   rewrite andb_false_r. cbn [andb].
   destruct (extract r); [destruct (eqb_str (c_lookup_key c) SYSTEM_ID)|]; destruct (c_template c);
     cbn [andb]; (destruct (if c_filemode c then _ else _); [eexists _, _; reflexivity | eexists _, None; reflexivity]).
